@@ -263,6 +263,7 @@ func run(r *vk.Runner) {
 	all = append(all, gj5s.RuleCases()...)
 	all = append(all, gj5s.OddNameCases()...)
 	all = append(all, gj5s.PipelineCases()...)
+	all = append(all, gj5s.ShapeCases()...)
 	for _, c := range all {
 		c := c
 		if r.Stopped() {
